@@ -398,11 +398,12 @@ Proof.
   split. simpl. lia.
   split. simpl. discriminate.
   split. reflexivity.
-  intro Hhb. apply hb_no_sync_same_thread in Hhb.
+  intro Hhb.
+  assert (Hs : g_sync (run (fun u => u) [0; 1; 0; 1] (init false [[OGet 1]; [OGet 1]])) = []) by (vm_compute; reflexivity).
+  apply hb_no_sync_same_thread in Hhb.
   - destruct Hhb as [t [H1 H2]]. vm_compute in H1. vm_compute in H2. rewrite <- H1 in H2. discriminate.
   - solve_nodup.
-  - unfold all_events. change (g_sync (run (fun u => u) [0; 1; 0; 1] (init false [[OGet 1]; [OGet 1]]))) with (@nil sevent).
-    apply no_sync_of_empty.
+  - unfold all_events. rewrite Hs. apply no_sync_of_empty.
 Qed.
 
 Theorem shared_lazy_relational_race :
@@ -416,9 +417,10 @@ Proof.
   split. simpl. lia.
   split. simpl. discriminate.
   split. reflexivity.
-  intro Hhb. apply hb_no_sync_same_thread in Hhb.
+  intro Hhb.
+  assert (Hs : g_sync (run (fun u => u) [0; 1; 0; 1] (init true [[OLazy 0]; [OLazy 0]])) = []) by (vm_compute; reflexivity).
+  apply hb_no_sync_same_thread in Hhb.
   - destruct Hhb as [t [H1 H2]]. vm_compute in H1. vm_compute in H2. rewrite <- H1 in H2. discriminate.
   - solve_nodup.
-  - unfold all_events. change (g_sync (run (fun u => u) [0; 1; 0; 1] (init true [[OLazy 0]; [OLazy 0]]))) with (@nil sevent).
-    apply no_sync_of_empty.
+  - unfold all_events. rewrite Hs. apply no_sync_of_empty.
 Qed.
